@@ -34,6 +34,31 @@ type PtrFields struct {
 	A  any
 }
 
+// EmbedsPtr embeds a pointer to a struct (nil or not): an exported field named Inner.
+type EmbedsPtr struct {
+	*Inner
+	Label string
+}
+
+// personTypeA and personTypeB are two different struct types that print the
+// same ("spec.Person"): types declared inside functions may share a name.
+func personTypeA() reflect.Type {
+	type Person struct {
+		Name string
+		Age  int
+	}
+	return reflect.TypeOf(Person{})
+}
+
+func personTypeB() reflect.Type {
+	type Person struct {
+		Age   int
+		Name  string
+		Email string
+	}
+	return reflect.TypeOf(Person{})
+}
+
 type fixedType struct {
 	rt     reflect.Type
 	fields []string // exported fields set from Items
@@ -46,8 +71,7 @@ type fixedType struct {
 var fixedTypes = map[string]*fixedType{}
 
 func init() {
-	reg := func(name string, sample any, fields []string, unexported []string) {
-		rt := reflect.TypeOf(sample)
+	regT := func(name string, rt reflect.Type, fields []string, unexported []string) {
 		ft := &fixedType{rt: rt, fields: fields, unexported: unexported}
 		ft.build = func(v *Value) reflect.Value {
 			rv := reflect.New(rt).Elem()
@@ -74,6 +98,12 @@ func init() {
 		}
 		fixedTypes[name] = ft
 	}
+	reg := func(name string, sample any, fields []string, unexported []string) {
+		regT(name, reflect.TypeOf(sample), fields, unexported)
+	}
+	reg("EmbedsPtr", EmbedsPtr{}, []string{"Inner", "Label"}, nil)
+	regT("PersonA", personTypeA(), []string{"Name", "Age"}, nil)
+	regT("PersonB", personTypeB(), []string{"Age", "Name", "Email"}, nil)
 	reg("WithHidden", WithHidden{}, []string{"Name", "Age"}, []string{"secret", "hidden"})
 	reg("Inner", Inner{}, []string{"Title", "N"}, nil)
 	reg("Embeds", Embeds{}, []string{"Inner", "Count"}, nil)
@@ -92,10 +122,12 @@ func FixedFields(name string) (exported, unexported []string) {
 // FixedFieldType is the Type of an exported field of a fixed struct.
 func FixedFieldType(name, field string) *Type {
 	switch name + "." + field {
-	case "WithHidden.Name", "Inner.Title":
+	case "WithHidden.Name", "Inner.Title", "EmbedsPtr.Label", "PersonA.Name", "PersonB.Name", "PersonB.Email":
 		return T(TString)
-	case "WithHidden.Age", "Inner.N", "Embeds.Count":
+	case "WithHidden.Age", "Inner.N", "Embeds.Count", "PersonA.Age", "PersonB.Age":
 		return T(TInt)
+	case "EmbedsPtr.Inner":
+		return PtrTo(FixedType("Inner"))
 	case "Embeds.Inner":
 		return FixedType("Inner")
 	case "PtrFields.P":
